@@ -1,7 +1,7 @@
 """Failing-input search for C08 on the real code: counting Bloom lower bound / add-remove undo /
 absent remove; counting cuckoo exact counts through evictions and expansions (scripted oracle)."""
 import core
-from search.common import drive, keys_pool, noise_touch, shrink_ops
+from search.common import drive, keys_pool, make_twin, noise_touch, shrink_ops
 from search.cuckoo_common import all_scripts, fingerprint, gen_case, shrink_case, walk
 
 U32 = 2**32 - 1
@@ -35,7 +35,7 @@ def check_cbf(case):
 
     c = CountingBloomFilter(est_elements=case["est"], false_positive_rate=case["fpr"], hash_function=signed_strategy if case.get("signed") else None)
     cnt = {}
-    twin = CountingBloomFilter(est_elements=case["est"] + 2, false_positive_rate=min(0.9, case["fpr"] * 1.5), hash_function=signed_strategy if case.get("signed") else None)
+    twin = make_twin(lambda: CountingBloomFilter(est_elements=case["est"] + 2, false_positive_rate=case["fpr"] * 0.6, hash_function=signed_strategy if case.get("signed") else None))
     for step, (kind, key, n) in enumerate(case["ops"]):
         noise_touch(twin, step)
         if kind == "add":
